@@ -32,6 +32,10 @@ CLAIMED = {
    technique="deterministic simulation: two-party exchange over simulated storage with an independent implementation (refavro) as the peer; seeded legal layout freedom of the foreign writer; stored-byte faults for is_avro",
    text="fastavro and an independent spec-derived implementation exchange seeded container files in both directions over simulated storage: the peer parses fastavro's files strictly (magic, header map, sync, every block, end of file) and must recover the submitted records; the peer writes layout-valid files exercising the freedom fastavro's own writer never uses (empty blocks, multi-chunk and negative-count header maps, absent codec key, foreign array/map block layouts, every codec) which reader and block_reader must return; block offsets/sizes observed through the simulator's tell must tile the file per the peer's boundaries; is_avro is driven with every cut <= 6, every bit flip of the magic and seeded byte strings through buffers, read-only streams and real paths; Java-written fixtures are replayed through the same path.",
    note="trusted: refavro as peer and oracle (it parses all Java-written fixtures of the test suite); deflate trailing bytes tolerated and counted"),
+ "C17": dict(cat="exploration", ref="DESIGN.md 4 (C17)",
+   technique="deterministic simulation: seeded call histories (including failing calls and shared objects) in one long-lived process versus the same call's dependency slice in a pristine forked interpreter; before/after snapshots of arguments",
+   text="Seeded histories of 5-60 public calls over schema families that reuse type names with different definitions, shared raw/parsed schema objects, shared named-schema dictionaries, Writer handles and failing calls are executed in one process; for each checked call only its dependency slice is re-evaluated in a pristine forked interpreter and value, stream bytes and exception class must agree; every schema and datum argument is snapshotted before and after each call. Seeded sampling of histories.",
+   note="trusted: fork of a process that imported but never called fastavro stands for a fresh interpreter (sampled against real subprocess interpreters in the self-test); the slicing rule (object-level data flow incl. named-schema dictionaries)"),
 }
 
 NA = {
